@@ -1,0 +1,24 @@
+//go:build verif
+
+package server
+
+import (
+	"github.com/gopcua/opcua/ua"
+	"github.com/gopcua/opcua/uasc"
+)
+
+// VerifAdoptSession registers an activated session with the given authentication
+// token on the given secure channel. A harness that replaces the CreateSession and
+// ActivateSession handlers through RegisterHandler (a scripted server) uses it so
+// that the requests that follow pass the dispatcher's session check.
+func (s *Server) VerifAdoptSession(token *ua.NodeID, sc *uasc.SecureChannel) {
+	s.sb.mu.Lock()
+	defer s.sb.mu.Unlock()
+	s.sb.s[token.String()] = &session{
+		ID:              ua.NewNumericNodeID(1, 77),
+		AuthTokenID:     token,
+		activated:       true,
+		channel:         sc,
+		PublishRequests: make(chan PubReq, 100),
+	}
+}
